@@ -174,6 +174,93 @@ def seqShiftShape (es : List Edit) (bs : List Blk) : Bool :=
   es.any fun x =>
     decide (x.delta ≠ 0) && es.any (fun y => decide (x.s < y.s)) && bs.any (fun b => decide (x.s < b.2))
 
+/-! ### haplotype mapping of an annotation collection -/
+
+/-- span `[smallest start, largest end)` of a non-empty family of intervals -/
+def spanOf : List Blk → Option Blk
+  | [] => none
+  | b :: bs =>
+    match spanOf bs with
+    | none => some b
+    | some r => some (min b.1 r.1, max b.2 r.2)
+
+/-- two spans share at least one position (the documented overlap rule between a gene / feature collection and a
+    variant collection: their spans overlap) -/
+def spansMeet (a b : Option Blk) : Bool :=
+  match a, b with
+  | some x, some y => decide (max x.1 y.1 < min x.2 y.2)
+  | _, _ => false
+
+/-- a member: its leaves (strand, blocks); a haplotype: its edits.  Coordinates of the reference sequence. -/
+abbrev MemberIn := List (Strand × List Blk)
+
+def memberSpanOf (m : MemberIn) : Option Blk := spanOf (m.flatMap fun l => l.2)
+def hapSpanOf (es : List Edit) : Option Blk := spanOf (es.map fun x => (x.s, x.e))
+
+/-- indices of the members a haplotype must be mapped to: exactly those whose span overlaps the haplotype's span -/
+def wantMembers (members : List MemberIn) (es : List Edit) : List Nat :=
+  (List.range members.length).filter fun j =>
+    match members[j]? with
+    | some m => spansMeet (memberSpanOf m) (hapSpanOf es)
+    | none => false
+
+def sortNats (l : List Nat) : List Nat := l.foldr (fun x acc => (acc.filter (· < x)) ++ x :: acc.filter (fun y => ¬ y < x)) []
+
+/-- one answered bucket: (member index, its leaves) -/
+abbrev BucketOut := List (Nat × List Lifted)
+
+/-- verdict on the leaves of one mapped member (member `m` incorporated with haplotype `es`) -/
+def leavesVerdicts (ref : Seq) (es : List Edit) (m : MemberIn) (out : List Lifted) : List Verdict :=
+  if m.length ≠ out.length then [.fail]
+  else (m.zip out).map fun p => okIncorporate ref es p.1.1 p.1.2 (some p.2)
+
+/-- membership part of C13 for `alternative_haplotype_mapping`: one bucket per haplotype, holding exactly the members
+    whose span overlaps that haplotype (order inside a bucket is not part of the claim) -/
+def hapMembersOk (members : List MemberIn) (haps : List (List Edit)) (tbl : List BucketOut) : Bool :=
+  decide (tbl.length = haps.length) &&
+  (haps.zip tbl).all fun p => decide (sortNats (p.2.map (·.1)) = wantMembers members p.1)
+
+/-- all verdicts on the leaves of all buckets -/
+def hapLeafVerdicts (ref : Seq) (members : List MemberIn) (haps : List (List Edit)) (tbl : List BucketOut) :
+    List Verdict :=
+  (haps.zip tbl).flatMap fun p => p.2.flatMap fun e =>
+    match members[e.1]? with
+    | some m => leavesVerdicts ref p.1 m e.2
+    | none => [.fail]
+
+/-- may the construction be refused?  yes when some member that has to be mapped loses a leaf entirely -/
+def hapRefusalJustified (ref : Seq) (members : List MemberIn) (haps : List (List Edit)) : Verdict :=
+  let vs := haps.flatMap fun es => (wantMembers members es).flatMap fun j =>
+    match members[j]? with
+    | some m => m.map fun l => okIncorporate ref es l.1 l.2 none
+    | none => []
+  if vs.any (· = .pass) then .pass else if vs.any (· = .na) then .na else .fail
+
+/-- C13 for `alternative_haplotype_mapping`.  `ans = none`: the construction raised. -/
+def okHap (ref : Seq) (members : List MemberIn) (haps : List (List Edit)) (ans : Option (List BucketOut)) : Verdict :=
+  if haps.isEmpty || members.isEmpty || haps.any (fun es => es.isEmpty || !validEdits ref.length es)
+     || members.any (fun m => m.isEmpty || m.any fun l => l.2.isEmpty || !goodBlocks ref.length l.2 || l.1 = .unstranded)
+  then .na
+  else match ans with
+    | none => hapRefusalJustified ref members haps
+    | some tbl =>
+      if !hapMembersOk members haps tbl then .fail
+      else
+        let vs := hapLeafVerdicts ref members haps tbl
+        if vs.any (fun v => v = .fail || v = .failDeletedRaises) then .fail else .pass
+
+/-- used only to keep the matcher of the known finding F-C13a narrow: the membership is right, and every failing leaf
+    belongs to a haplotype / leaf pair with the sequential-application shape -/
+def hapFailureIsShaped (ref : Seq) (members : List MemberIn) (haps : List (List Edit)) (tbl : List BucketOut) : Bool :=
+  hapMembersOk members haps tbl &&
+  (haps.zip tbl).all fun p => p.2.all fun e =>
+    match members[e.1]? with
+    | some m =>
+      decide (m.length = e.2.length) &&
+      (m.zip e.2).all fun q =>
+        okIncorporate ref p.1 q.1.1 q.1.2 (some q.2) != .fail || seqShiftShape p.1 q.1.2
+    | none => false
+
 /-! ### VCF records → haplotypes -/
 
 inductive PS where
